@@ -446,6 +446,8 @@ def record(case):
         c["frames"].append(project(df))
         for fmt in path.split("-")[1:]:
             step = "write_" + fmt
+            if fmt == "pdb" and rng.random() < 0.34:
+                df = _written_before(p2, df)
             if fmt == "pdb":
                 out = p2.write_pdb(df)
                 c["texts"].append({"src": len(c["frames"]), "model": -1, "lines": text_lines(out)})
@@ -461,6 +463,24 @@ def record(case):
     except Exception as e:          # the error path is data
         c["err"], c["errstep"] = type(e).__name__, step
     return c
+
+
+def _written_before(p2, df):
+    """Environment action: the frame handed to write_pdb has a history - a same-shape frame with another x
+    coordinate was written, then given the values of `df` (whatever a writer remembers in the frame or its attrs
+    travels along).  On a writer without memory the result equals `df`."""
+    num = [col for col in df.columns if getattr(df[col].dtype, "kind", "") == "f"]
+    if not num:
+        return df
+    sib = df.copy()
+    try:
+        sib[num[0]] = sib[num[0]] + 1.0
+        p2.write_pdb(sib)
+    except Exception:          # the prelude's own trouble (a coordinate that no longer fits its columns) is not data
+        return df
+    for col in df.columns:
+        sib[col] = df[col]
+    return sib
 
 
 def _record_split(case, c, rng):
